@@ -30,6 +30,12 @@ func (m *Machine) clockNow() value {
 		m.setClock(n)
 		return n
 	}
+	if t, ok := m.clockVal().(*Term); ok {
+		// the clock was symbolic earlier on this path: advance it by 1 ns
+		n := fromTerm(m.tt.BVBin("bvadd", t, m.tt.BV(1, 64)), types.Typ[types.Int64])
+		m.setClock(n)
+		return n
+	}
 	c := asInt64(m.clockVal()) + 1
 	m.setClock(c)
 	return c
